@@ -814,9 +814,9 @@ func Main(c *run.Ctx) {
 		c.Extra("second_level", map[string]any{
 			"distinct_states_after_first_fault": distinctStates,
 			"double_fault_plans":                secondLevel,
-			"note": "second fault enumerated at every statement of the first restart x 3 kinds from every DISTINCT post-first-fault state; first faults that leave an identical catalogue (canonical text) share the enumeration because Update is a deterministic function of the catalogue",
-			"triple_fault_plans_sampled": tripleN,
-			"triple_note":                "three faulted runs before the clean restarts: PRNG sample (stream c18-triple), not exhaustive",
+			"note":                              "second fault enumerated at every statement of the first restart x 3 kinds from every DISTINCT post-first-fault state; first faults that leave an identical catalogue (canonical text) share the enumeration because Update is a deterministic function of the catalogue",
+			"triple_fault_plans_sampled":        tripleN,
+			"triple_note":                       "three faulted runs before the clean restarts: PRNG sample (stream c18-triple), not exhaustive",
 		})
 	}
 	// exhaustive = every statement index of every enumerated configuration x 3 kinds was run
